@@ -85,12 +85,19 @@ DeepPaths == {<<XX, f>> : f \in Final2} \cup {<<p, XX, f>> : p \in Parent2, f \i
              \cup {<<XX, p, f>> : p \in Parent2, f \in Final2}
 StarPaths == {<<X, f>> : f \in Final2} \cup {<<X, X, f>> : f \in Final2}
              \cup {<<p, X, f>> : p \in Parent2, f \in Final2} \cup {<<X, p, f>> : p \in Parent2, f \in Final2}
-PathsFor(h) == (IF Stars \in {"only", "deep"} THEN {} ELSE IF Len(h) - Extra >= 2 THEN Paths2 \cup Paths3 ELSE Paths2)
+\* boundary indices of the 1- and 2-element lists of the targets (-len-1, -len, len-1, len, len+1) and the
+\* falsy key ''
+EdgeFinal == {Step("[", VInt(-3)), Step("[", VInt(-2)), Step("[", VInt(2)), Step("[", VInt(3)),
+              Step("P", VStr("-2")), Step("P", VStr("2")), Step("P", VStr("1")), Step("[", VStr("")), Step("P", VStr(""))}
+EdgeParent == {Step("P", VStr("a")), Step("[", VStr("a")), Step("[", VInt(0))}
+EdgePaths == {<<f>> : f \in EdgeFinal} \cup {<<p, f>> : p \in EdgeParent, f \in EdgeFinal}
+PathsFor(h) == (IF Stars \in {"only", "deep"} THEN {} ELSE EdgePaths) \cup
+               (IF Stars \in {"only", "deep"} THEN {} ELSE IF Len(h) - Extra >= 2 THEN Paths2 \cup Paths3 ELSE Paths2)
                \cup (IF Stars \in {"no", "deep"} THEN {} ELSE StarPaths) \cup (IF Stars = "deep" THEN DeepPaths ELSE {})
 
 \* ---- faults ---------------------------------------------------------------------------
 NoFlags(h) == [a \in 1..Len(h) |-> ""]
-Applicable(cls) == CASE cls \in {"dict", "list"} -> {"dfault"} [] cls = "obj" -> {"dfault", "prop"} [] OTHER -> {}
+Applicable(cls) == CASE cls \in {"dict", "list"} -> {"dfault"} [] cls = "obj" -> {"dfault", "prop", "slots"} [] OTHER -> {}
 OneFlag(h) == UNION {{[a \in 1..Len(h) |-> IF a = b THEN f ELSE ""] : f \in Applicable(h[b].cls)} : b \in 1..(Len(h) - Extra)}
 
 Blank == [kind |-> "delete", heap0 |-> <<>>, flags |-> <<>>, root |-> VNone, steps |-> <<>>,
@@ -105,6 +112,8 @@ Init ==
 
 ForEachCase(Do(_)) ==
   \E steps \in PathsFor(case.heap0) : \E ig \in BOOLEAN : \E fl \in {NoFlags(case.heap0)} \cup OneFlag(case.heap0) :
+    \* (a slotted object has no __dict__, so a wildcard finds no children in it)
+    (HasStar(steps) => \A a \in 1..Len(fl) : fl[a] # "slots") /\
     Do([case EXCEPT !.flags = fl, !.steps = steps, !.ignore = ig])
 
 Choose  == pc = "init" /\ ForEachCase(LAMBDA c : Become(Start(c)) /\ exp' = Ref(c))
